@@ -11,7 +11,8 @@ vars == <<stage, cfg, req>>
 E(t, s, p) == [t |-> t, s |-> s, p |-> p]
 M(t, s)    == [t |-> t, s |-> s]
 EntryPool  == { E("a", "x", FALSE), E("a", "y", FALSE), E("b", "x", FALSE), E("a", "*", FALSE), E("*", "*", FALSE),
-                E("a", "x", TRUE), E("application", "octet-stream", FALSE) }
+                E("a", "x", TRUE), E("application", "octet-stream", FALSE),
+                E("a", "*", TRUE), E("*", "*", TRUE) }                 \* wildcard entries may carry parameters too
 Defaults   == { <<>>, <<M("a", "x")>>, <<M("b", "y")>> }
 Types      == { M("a", "x"), M("a", "y"), M("b", "x"), M("b", "y"), Octet }
 Headers    == { [k |-> "absent", t |-> "", s |-> ""], [k |-> "empty", t |-> "", s |-> ""], [k |-> "malformed", t |-> "", s |-> ""] }
